@@ -15,6 +15,6 @@ bash SEED/demo.sh /tmp/seed/$id.seeded.bin >/tmp/seed/$id.demo.seeded.log 2>&1; 
 echo "== demo: unchanged rc=$a  changed rc=$b"
 cd /verif
 for c in "$@"; do
-  out=$(VERIF_REPO=$wt VERIF_BUILD=/tmp/seed/$id-vb ./check $c quick 2>&1); rc=$?
+  out=$(VERIF_EVIDENCE_DIR=/tmp/seed-evidence VERIF_REPO=$wt VERIF_BUILD=/tmp/seed/$id-vb ./check $c quick 2>&1); rc=$?
   echo "== check $c rc=$rc: $(echo "$out" | grep -A1 -E 'VIOLATION|INFRA' | head -4 | cut -c1-300 | tr '\n' ' ')"
 done
